@@ -570,6 +570,56 @@ fn server_shutdown(seed: u64) {
         }
         drop(kv);
     }
+    // variant B: an engine whose writes are slow and fail for some keys (a wrapper around the real Handle): a SET / DEL whose engine
+    // call fails must never be answered with a success reply, whenever the signal fires
+    {
+        #[derive(Clone)]
+        struct Flaky(bitcask::storage::bitcask::Handle);
+        impl KeyValueStorage for Flaky {
+            type Error = std::io::Error;
+            fn set(&self, key: bytes::Bytes, value: bytes::Bytes) -> Result<(), Self::Error> {
+                std::thread::sleep(std::time::Duration::from_millis(40));
+                if key.starts_with(b"fail") { return Err(std::io::Error::new(std::io::ErrorKind::Other, "injected engine failure")); }
+                self.0.set(key, value).map_err(|e| std::io::Error::new(std::io::ErrorKind::Other, e.to_string()))
+            }
+            fn get(&self, key: bytes::Bytes) -> Result<Option<bytes::Bytes>, Self::Error> { self.0.get(key).map_err(|e| std::io::Error::new(std::io::ErrorKind::Other, e.to_string())) }
+            fn del(&self, key: bytes::Bytes) -> Result<bool, Self::Error> {
+                std::thread::sleep(std::time::Duration::from_millis(40));
+                if key.starts_with(b"fail") { return Err(std::io::Error::new(std::io::ErrorKind::Other, "injected engine failure")); }
+                self.0.del(key).map_err(|e| std::io::Error::new(std::io::ErrorKind::Other, e.to_string()))
+            }
+        }
+        for (what, wire) in [("SET fail-1 v", req(&[b"SET", b"fail-1", b"v"])), ("DEL fail-2", req(&[b"DEL", b"fail-2"]))] {
+            rounds += 1;
+            let dir = tempfile::tempdir().unwrap();
+            let mut c = SConf::default();
+            c.path(dir.path()).concurrency(2).max_file_size(1 << 20).sync(SyncStrategy::None).merge_check_interval_ms(1_000_000_000).merge_check_jitter(0.0);
+            let kv = c.open().unwrap();
+            let handle = Flaky(kv.get_handle());
+            let port = { let l = std::net::TcpListener::bind("127.0.0.1:0").unwrap(); l.local_addr().unwrap().port() };
+            let (stop_tx, stop_rx) = tokio::sync::oneshot::channel::<()>();
+            let mut nc = bitcask::net::Config::default();
+            nc.host = "127.0.0.1".parse().unwrap(); nc.port = port;
+            let delay_ms = 5 + next(60);
+            let got: Result<Vec<u8>, String> = rt.block_on(async {
+                let server = nc.async_server(handle, async { let _ = stop_rx.await; }).await.map_err(|e| format!("server start: {}", e))?;
+                let srv = tokio::spawn(server.run());
+                let mut s = tokio::net::TcpStream::connect(("127.0.0.1", port)).await.map_err(|e| format!("connect: {}", e))?;
+                s.write_all(&wire).await.map_err(|e| e.to_string())?;
+                let stopper = tokio::spawn(async move { tokio::time::sleep(std::time::Duration::from_millis(delay_ms)).await; let _ = stop_tx.send(()); });
+                let mut got = Vec::new(); let mut buf = vec![0u8; 256];
+                loop { match tokio::time::timeout(std::time::Duration::from_secs(10), s.read(&mut buf)).await { Ok(Ok(0)) | Ok(Err(_)) => break, Ok(Ok(k)) => got.extend(&buf[..k]), Err(_) => break } }
+                let _ = stopper.await;
+                let _ = tokio::time::timeout(std::time::Duration::from_secs(10), srv).await;
+                Ok(got)
+            });
+            let hist = format!("seed {}: `{}` on an engine whose call takes 40 ms and then FAILS; shutdown signal after {} ms", seed, what, delay_ms);
+            if let Ok(g) = got { if g.first() == Some(&b'+') || g.first() == Some(&b':') {
+                println!("{{\"found\": true, \"kind\": \"shutdown\", \"props\": \"C16\", \"history\": {}, \"observed\": {}, \"expected\": {}}}", js(&hist), js(&format!("the client received {:?} although the engine call failed", String::from_utf8_lossy(&g))), js("no success reply: the command is not in the store"));
+                std::process::exit(0); } }
+            drop(kv);
+        }
+    }
     for round in 0..8u64 {
         rounds += 1;
         let dir = tempfile::tempdir().unwrap();
@@ -1123,6 +1173,8 @@ mod store {
             // a rollover that fails (the next file already exists), the obstacle is removed, the operation is retried (C20)
             (0, "all", "set a 1; precreate-data 2; del a; remove-data 2; !del a; checkstats; get a; !set a 2; checkstats; get a; reopen; checkall; checkstats"),
             (0, "all", "set a 1; set b 1; precreate-data 3; set a 2; remove-data 3; !set a 3; checkstats; !del a; checkstats; !del b; checkstats; get a; get b"),
+            // a set whose rollover fails leaves its entry in the file (reported as failed); an acknowledged delete afterwards must hold across a restart
+            (0, "all", "set a 1; precreate-data 2; set k 1; remove-data 2; !del k; get k; !set b 1; reopen; get k; get b; checkall"),
             // partial merge: an old file keeps a stale record of `a` (1 of 3 dead: not selected) while the file holding its live record is merged
             (64, "frag50", "set a 1; set b 1; set c 1; set a 2; set x 1; set x 2; set x 3; merge; checkall; checkhints; checkall; get a; merge; checkhints; checkall"),
             (200, "frag50", "set a 1; set b 1; set c 1; set d 1; reopen; set a 22222222222222222222; set x 1; set x 2; set x 3; set x 4; merge; checkall; checkhints; checkall; checkstats"),
@@ -1181,7 +1233,7 @@ mod store {
             let v: Vec<&str> = ops.iter().map(|s| s.as_str()).collect();
             run_history(max, mode, &v, "history");
         }
-        println!("{{\"found\": false, \"searched\": \"17 curated (two with a failing rollover, one merge whose selection has a gap, one with a reader cache of capacity 0, two with values of 1 B / 3 KB / 70 KB alternating), 40 pseudo-random histories with full merges and 24 with partial merges (no deletes), (set/del/get/merge/reopen over 3 keys, max_file_size in 0,40,100,1M) against the map model incl. per-file live-key and dead-byte accounting\"}}");
+        println!("{{\"found\": false, \"searched\": \"18 curated (three with a failing rollover, one merge whose selection has a gap, one with a reader cache of capacity 0, two with values of 1 B / 3 KB / 70 KB alternating), 40 pseudo-random histories with full merges and 24 with partial merges (no deletes), (set/del/get/merge/reopen over 3 keys, max_file_size in 0,40,100,1M) against the map model incl. per-file live-key and dead-byte accounting\"}}");
     }
 
     /// C18 (bounded, real time): the background tasks of the real store with a 25 ms check interval.
